@@ -398,8 +398,8 @@ func (g *verifGen) tree(t byte, depth int, siblingCalls int) *verifNode {
 	}
 	var menu []*verifKind
 	for i := range verifKinds {
-		// (quick tier: the innermost node of a three level tree is one of a few representative function calls; every kind there is left to the thorough tier)
-		if verifKinds[i].res == t && (!g.callsInnermost || depth > 1 || (verifKinds[i].form == 'f' && verifInnermostQuick[verifKinds[i].name])) {
+		// (quick tier: the innermost node of a three level tree is the negation or one of a few representative function calls; every kind there is left to the thorough tier)
+		if verifKinds[i].res == t && (!g.callsInnermost || depth > 1 || verifKinds[i].form == 'n' || (verifKinds[i].form == 'f' && verifInnermostQuick[verifKinds[i].name])) {
 			menu = append(menu, &verifKinds[i])
 		}
 	}
@@ -492,7 +492,8 @@ func VerifC17_Grouping() {
 // VerifC17_Nesting: three levels, with completed calls as sibling operands of
 // the root (an earlier call in the same expression) and, below the root, the
 // other operands all literals or all completed calls; concrete operands; in
-// the quick tier the innermost node is one of seven representative calls.
+// the quick tier the innermost node is the negation or one of seven
+// representative calls.
 // cover: number, text, boolean
 func VerifC17_Nesting() {
 	g := &verifGen{callsInnermost: !zzverif.Thorough(), pairedSiblings: true}
